@@ -680,6 +680,9 @@ class Interp:
                 except (IndexError, KeyError, TypeError, ValueError) as e:
                     raise PathRaise(type(e).__name__, t)
                 return
+            if HOST_TYPES and isinstance(obj, HOST_TYPES) and type(obj).__name__ in ('ndarray', 'MiniCSR'):
+                # a store at a position the analysis does not know: dropping it would leave the tracked array wrong
+                raise Unsupported(t, f'store into a tracked array at an unknown index {idx!r}')
             si = getattr(obj, 'pqv_setitem', None)
             if si is not None:
                 si(idx, v)
@@ -1267,6 +1270,30 @@ class Interp:
         m = ci.find_method('__init__')
         if m:
             self.call_closure(Closure(m[1], m[0].module, m[0]), args, kwargs, node, self_obj=obj)
+            return obj
+        # record classes without a hand-written constructor: typing.NamedTuple subclasses and @dataclass classes get
+        # one field per annotated class attribute, positional arguments in declaration order
+        is_nt = any(str(b).split('.')[-1] == 'NamedTuple' for b in ci.external_bases)
+        is_dc = any(d.split('.')[-1].split('(')[0] == 'dataclass' for d in _decos(ci.node))
+        if is_nt or is_dc:
+            names, defaults = [], {}
+            for st in ci.node.body:
+                if isinstance(st, ast.AnnAssign) and isinstance(st.target, ast.Name):
+                    names.append(st.target.id)
+                    if st.value is not None:
+                        defaults[st.target.id] = st.value
+            if len(args) > len(names) or set(kwargs) - set(names):
+                raise PathRaise('TypeError', node)
+            env = Env(ci.module)
+            for i, nm in enumerate(names):
+                if i < len(args):
+                    obj.fields[nm] = args[i]
+                elif nm in kwargs:
+                    obj.fields[nm] = kwargs[nm]
+                elif nm in defaults:
+                    obj.fields[nm] = self.ev(defaults[nm], env)
+                else:
+                    raise PathRaise('TypeError', node)
         return obj
 
     def call_ext(self, func: Ext, args, kwargs, node, env):
@@ -1348,6 +1375,26 @@ class Interp:
                 return self._isinstance(args, node)
             if b == 'print':
                 return None
+            if b == 'getattr' and 2 <= len(args) <= 3 and isinstance(args[1], str):
+                obj = args[0]
+                if isinstance(obj, Obj):
+                    known = args[1] in obj.fields or (obj.ci is not None and (
+                        obj.ci.find_method(args[1]) or obj.ci.find_attr(args[1])))
+                    if not known and len(args) == 3:
+                        exact = obj.ci is not None and all(not c.external_bases for c in obj.ci.mro)
+                        return args[2] if exact else TOP
+                return self.getattr(obj, args[1], node, env)
+            if b == 'setattr' and len(args) == 3 and isinstance(args[1], str):
+                obj = args[0]
+                r = self.hooks.store_attr(self, obj, args[1], args[2], node, env)
+                if r is not NOT_HANDLED:
+                    return None
+                if isinstance(obj, Obj):
+                    obj.fields[args[1]] = args[2]
+                    return None
+                if obj is TOP:
+                    return None
+                raise Unsupported(node, f'setattr on {type(obj).__name__}')
             if b == 'hasattr':
                 if len(args) == 2 and isinstance(args[0], Obj) and isinstance(args[1], str):
                     if args[1] in args[0].fields:
@@ -1360,6 +1407,37 @@ class Interp:
                     return TOP
                 return TOP
             return TOP
+        if name in ('collections.Counter', 'collections.OrderedDict', 'collections.defaultdict'):
+            import collections as _c
+            try:
+                if name.endswith('Counter') and not _contains_top(args) and not kwargs:
+                    return _c.Counter(*args)
+                if name.endswith('OrderedDict') and not _contains_top(args):
+                    return dict(*args, **kwargs)          # insertion ordered like every dict
+                if name.endswith('defaultdict') and len(args) <= 1 and not kwargs:
+                    fac = args[0] if args else None
+                    facs = {'builtins.int': int, 'builtins.list': list, 'builtins.dict': dict, 'builtins.set': set,
+                            'builtins.float': float, 'builtins.str': str}
+                    if fac is None:
+                        return _c.defaultdict()
+                    if isinstance(fac, Ext) and fac.name in facs:
+                        return _c.defaultdict(facs[fac.name])
+            except TypeError:
+                pass
+            return TOP
+        if name.startswith('numpy.'):
+            # an array function nobody modelled: harmless if it is a pure function (the result is unknown), but it may
+            # also write into an array we track (np.add.at, np.put, np.copyto, rng.shuffle ...) - then every later
+            # read of that array would be wrong without notice
+            from .symnp import _PURE as _pure
+            last = name.split('.')[-1]
+            if last not in _pure or name.count('.') > 1:
+                tracked = [a for a in list(args) + list(kwargs.values())
+                           if (HOST_TYPES and isinstance(a, HOST_TYPES) and not isinstance(a, (int, float, complex)))
+                           and type(a).__name__ in ('ndarray', 'MiniCSR')]
+                if tracked and (last in ('at', 'put', 'place', 'copyto', 'fill_diagonal', 'putmask', 'put_along_axis',
+                                         'shuffle', 'setfield', 'resize') or name.count('.') > 1 and last == 'at'):
+                    raise Unsupported(node, f'{name} writes into an array the analysis tracks')
         return TOP
 
     def _isinstance(self, args, node):
